@@ -263,7 +263,7 @@ Lemma recv_err_unchanged cfg e w p tape lie l :
   rr_out (recv_lie cfg e w p tape lie) = OAckErr l ->
   rr_world (recv_lie cfg e w p tape lie) = w /\ rr_moves (recv_lie cfg e w p tape lie) = [].
 Proof.
-  unfold recv_lie, recv_with.
+  unfold recv_lie, recv_with, recv_generic.
   repeat match goal with
   | |- context [if ?b then _ else _] => destruct b; cbn [result_of rr_out rr_world rr_moves]; try (intros; split; reflexivity); try discriminate
   end.
@@ -283,7 +283,7 @@ Lemma recv_delegated_false_unchanged cfg e w p tape lie :
   rr_out (recv_lie cfg e w p tape lie) = ODelegated false ->
   rr_world (recv_lie cfg e w p tape lie) = w.
 Proof.
-  unfold recv_lie, recv_with.
+  unfold recv_lie, recv_with, recv_generic.
   repeat match goal with
   | |- context [if ?b then _ else _] => destruct b; cbn [result_of rr_out rr_world]; try discriminate
   end.
@@ -305,7 +305,7 @@ Lemma orbiter_packet_not_delegated cfg e w p tape lie denom amount sender receiv
   e_bech32 e receiver = Some (cfg_orbiter cfg) ->
   rr_out (recv_lie cfg e w p tape lie) <> ODelegated b.
 Proof.
-  intros Hd Hr. unfold recv_lie, recv_with.
+  intros Hd Hr. unfold recv_lie, recv_with, recv_generic.
   repeat match goal with
   | |- context [if ?c then _ else _] => destruct c; cbn [result_of rr_out]; try discriminate
   end.
@@ -353,7 +353,7 @@ Lemma delegated_orbiter_unchanged cfg e w p tape lie d :
   bal (w_l (rr_world (recv_lie cfg e w p tape lie))) (cfg_orbiter cfg) d = bal (w_l w) (cfg_orbiter cfg) d /\
   w_o (rr_world (recv_lie cfg e w p tape lie)) = w_o w.
 Proof.
-  intros Hwf. unfold recv_lie, recv_with.
+  intros Hwf. unfold recv_lie, recv_with, recv_generic.
   repeat match goal with
   | |- context [if ?c then _ else _] => destruct c; cbn [result_of rr_out]; try discriminate
   end.
